@@ -658,7 +658,63 @@ def r01_14(ctx):
                '_set(%s, failure): `%s` is the part that was sent last and is running; its real result will be dropped' % (pos, last))
 
 
+
+def r01_15(ctx):
+    ctx.rule('R01.15', 'a job leaves the cache only through its own handle (which knows whether all of its parts are '
+                       'in): nothing else pops or deletes cache entries by job id -- a helper that sees one part of a '
+                       'map / imap job would evict the parts still on their way, whose results are then dropped as '
+                       'unknown', floor=5)
+    m = ctx.model
+    handles = ('ApplyResult', 'MapResult', 'IMapIterator', 'IMapUnorderedIterator')
+    n_ = 0
+    for qn, fi in sorted(m.funcs.items()):
+        if fi.module.name != 'pool':
+            continue
+        sites = []
+        for x in walk_own(fi.node):
+            if isinstance(x, ast.Call) and isinstance(x.func, ast.Attribute) and x.func.attr in ('pop', 'popitem', 'clear') \
+                    and (fi.canon(x.func.value) or '').split('.')[-1] in ('cache', '_cache'):
+                sites.append(x)
+            elif isinstance(x, ast.Delete):
+                for t in x.targets:
+                    if isinstance(t, ast.Subscript) and (fi.canon(t.value) or '').split('.')[-1] in ('cache', '_cache'):
+                        sites.append(x)
+        for x in sites:
+            n_ += 1
+            owner = fi.qual.split(':')[1]
+            ok = owner.split('.')[0] in handles
+            ctx.ob('R01.15', 'cache-entry-removed-by:%s' % owner, ok, fi, x,
+                   'the handle removes itself' if ok else
+                   '%s removes a job from the cache by id (`%s`): the other parts of that job are still outstanding'
+                   % (owner, ast.unparse(x)[:50]))
+    q.need(n_ >= 5, 'no cache removals found')
+
+
+def r01_16(ctx):
+    ctx.rule('R01.16', 'a result message for a job that is in the cache always reaches the handle: after the lookup '
+                       'succeeded, on_ready passes <entry>._set(i, obj) on every normal path (the handle itself decides '
+                       'about duplicates; a marker like "worker lost" is a suspicion the result is there to clear)', floor=1)
+    m = ctx.model
+    on_ready = [f for qn, f in m.funcs.items() if qn.endswith('ResultHandler._make_methods.on_ready')]
+    q.need(on_ready, 'ResultHandler on_ready not found')
+    fi = on_ready[0]
+    cfg = fi.cfg
+    look = [dn for (dn, t, v) in q.assigns(fi, None) if isinstance(v, ast.Subscript) and
+            (fi.canon(v.value) or '').split('.')[-1] in ('cache', '_cache')]
+    q.need(look, 'on_ready: lookup of the cache entry not found')
+    item = ast.unparse(look[0].ast.targets[0])
+    sets = [n for (n, c) in q.calls(fi, item + '._set')]
+    ok, w = cfg.must_pass(look, [cfg.exit], sets, skip_labels=('x',), completed=True) if sets else (False, None)
+    ctx.ob('R01.16', 'on_ready:every-result-reaches-the-handle', ok, fi, sets[0] if sets else look[0],
+           '%s._set(i, obj) on every normal path after %s = cache[job]' % (item, item), path=w)
+
+
 def run(ctx):
+    r01_15(ctx)
+    r01_16(ctx)
+    from .c06 import r06_3 as _r06_3
+    from ..report import Only as _OnlyA
+    _r06_3(_OnlyA(ctx, ('ready-before-callbacks',), floor=1, doc='a handle is ready (and out of the cache) before its completion callbacks run: a slow callback must not leave a resolved job looking pending to the time-limit scan'))
     r01_13(ctx)
     r01_14(ctx)
     # the owner lists of a map job are per item (borrowed from C04), and close() stops only the supervisor (from C07):
@@ -711,6 +767,8 @@ def run(ctx):
 
 _P = 'billiard/pool.py'
 MUTANTS = [
+    ('feeder-evicts-a-job-whose-part-could-not-be-sent', _P, "                        try:\n                            cache[job]._set(ind, (False, ExceptionInfo()))\n                        except KeyError:\n                            pass\n", "                        try:\n                            cache[job]._set(ind, (False, ExceptionInfo()))\n                        except KeyError:\n                            pass\n                        cache.pop(job, None)\n", 'R01.15'),
+    ('result-for-a-suspected-job-discarded', _P, "            if not item.ready():\n                if putlock is not None:\n                    putlock.release()\n            try:\n                item._set(i, obj)", "            if item.ready() or item._worker_lost:\n                return\n            if putlock is not None:\n                putlock.release()\n            try:\n                item._set(i, obj)", 'R01.16'),
     ('imap-pins-positionless-failure-on-the-next-part', _P, "    def _set(self, i, obj):\n        with self._cond:\n            if self._index == i:", "    def _set(self, i, obj):\n        with self._cond:\n            if i is None:\n                i = self._index\n            if self._index == i:", 'R01.13'),
     ('sequence-failure-filed-on-the-last-sent-part', _P, "                    cache[job]._set(ind + 1, (False, ExceptionInfo()))\n", "                    cache[job]._set(ind, (False, ExceptionInfo()))\n", 'R01.14'),
     ('map-handle-drops-the-error-callback', _P, "            self, cache, callback, error_callback=error_callback,\n", "            self, cache, callback,\n", 'R01.10'),
